@@ -849,10 +849,15 @@ func redoEquity(c *types.ChangeLog, processor types.ChangeLogProcessor) error {
 }
 
 func undoEquity(c *types.ChangeLog, processor types.ChangeLogProcessor) error {
-	oldVal, ok := c.OldVal.(*types.AssetEquity)
-	if !ok {
-		log.Errorf("undoEquity expected OldVal *types.AssetEquity, got %T", c.OldVal)
-		return types.ErrWrongChangeLogData
+	// OldVal is nil if the account had no equity of this id. Then remove it again, like redoEquity does for a nil NewVal
+	var oldVal *types.AssetEquity
+	if c.OldVal != nil {
+		var ok bool
+		oldVal, ok = c.OldVal.(*types.AssetEquity)
+		if !ok {
+			log.Errorf("undoEquity expected OldVal *types.AssetEquity, got %T", c.OldVal)
+			return types.ErrWrongChangeLogData
+		}
 	}
 	id, ok := c.Extra.(common.Hash)
 	if !ok {
